@@ -677,3 +677,129 @@ def run_touch(run, P):
             return None
         solve(f, Env(), on_event, None, keys, R, key_fn=lambda e: (tuple(sorted((k, v) for k, v in e.ts.items() if k[:2] in ('t:', 'o:'))), tuple(e.nullf(v) for v in sorted(svars))))
     run.require(n >= 1 or run.fixture_mode or run.cfg != 'base', 'R-SESS-EVT(idle accounting): no function that returns a session and refreshes last_rx_tx found')
+
+
+def run_key_zero(run, P):
+    """R-SESS-KEY: sessions are filed and found by the BYTES of a record (uthash hashes and memcmp()s sizeof(key) bytes of
+    coap_addr_hash_t, padding and the unused tail of the address union included).  Two keys built from the same peer address are equal as
+    bytes only if every byte the field assignments do not reach is the same in both, i.e. the whole record is zeroed before its fields are
+    set.  Decided structurally: the key records are taken from the code (the record whose address initialises uthash's byte cursor
+    `_hj_key`); every function that assigns fields of such a record through a pointer parameter or in a local has a
+    memset(object, 0, sizeof(record)) that dominates those assignments, and every local key record that is hashed is initialised by such a
+    memset or by being handed to such a function.  Without it the look-up key carries stack garbage: an existing peer is not found, a
+    second session is made for it (second NEW event), and the old one lingers until it idles out."""
+    from core.prog import dominators
+    run.rule('R-SESS-KEY')
+    keyrecs = {}
+    for f in P.lib_funcs():
+        for b, ev in P.events(f):
+            t = ev['e']
+            if t.get('k') != 'decl':
+                continue
+            for d in t['d']:
+                if d.get('n') == '_hj_key' and d.get('init'):
+                    e = strip(d['init'])
+                    if isinstance(e, dict) and e.get('k') == 'un' and e.get('op') == '&' and e.get('prec') in P.records and len(P.records[e['prec']]) > 1:
+                        keyrecs.setdefault(e['prec'], set()).add(f['name'])
+    run.require(keyrecs or run.fixture_mode, 'R-SESS-KEY: no record is hashed by its bytes any more (uthash _hj_key initialised from &record)')
+    sizes = {}
+    for f in P.lib_funcs():
+        for b, ev in P.events(f):
+            t = ev['e']
+            if t.get('k') == 'call' and t.get('fn') == 'memcmp' and 'HASH_KEYCMP' in (ev.get('mac') or ()) and len(t['a']) == 3:
+                for a in t['a'][:2]:
+                    e = strip(a)
+                    if isinstance(e, dict) and e.get('k') == 'un' and e.get('op') == '&' and e.get('prec') in keyrecs and const_int(t['a'][2]) is not None:
+                        sizes[e['prec']] = const_int(t['a'][2])
+
+    def zeroes(t, rec):
+        """object zeroed by this call, as an access path of the POINTER / '&x' for a local"""
+        if t.get('k') != 'call' or t.get('fn') != 'memset' or len(t.get('a') or ()) != 3:
+            return None
+        if const_int(t['a'][1]) != 0 or const_int(t['a'][2]) is None or const_int(t['a'][2]) < sizes.get(rec, 1):
+            return None
+        e = strip(t['a'][0])
+        if isinstance(e, dict) and e.get('prec') == rec:
+            if e.get('k') == 'un' and e.get('op') == '&':
+                return '&' + (ap(e['e']) or '?')
+            return ap(e)
+        return None
+
+    zeroing = {}          # (function, parameter index) -> zeroes the record before writing it
+    nw = nl = 0
+    for rec in sorted(keyrecs):
+        for f in sorted(P.lib_funcs(), key=lambda f: f['name']):
+            writes = collections.defaultdict(list)
+            for b, ev in P.events(f):
+                t = ev['e']
+                if t.get('k') == 'asg' and ev.get('top', True):
+                    l = strip(t['l'])
+                    if isinstance(l, dict) and l.get('k') == 'mem' and l.get('rec') == rec:
+                        base = strip(l['b'])
+                        if l.get('arrow') and isinstance(base, dict) and base.get('k') == 'var':
+                            writes[ap(base)].append((b, ev))
+                        elif not l.get('arrow') and isinstance(base, dict) and base.get('k') == 'var' and not base.get('g'):
+                            writes['&' + ap(base)].append((b, ev))
+            if not writes:
+                continue
+            dom = dominators(f)
+            for obj, ws in sorted(writes.items()):
+                zs = [(b, ev) for b, ev in P.events(f) if ev.get('top', True) and zeroes(ev['e'], rec) == obj]
+                bad = None
+                for (wb, wev) in ws:
+                    ok = False
+                    for (zb, zev) in zs:
+                        if zb['id'] == wb['id']:
+                            el = wb['elems']
+                            ok = ok or [i for i, x in enumerate(el) if x is zev][0] < [i for i, x in enumerate(el) if x is wev][0]
+                        else:
+                            ok = ok or zb['id'] in dom.get(wb['id'], ())
+                    if not ok:
+                        bad = bad or wev
+                nw += 1
+                oname = ([p['n'] for p in f.get('params') or () if 'v%s' % p['id'] == obj] + [short(ws[0][1]['e']['l']).split('->')[0].split('.')[0]])[0]
+                run.instance('R-SESS-KEY', '%s: fields of %s %s assigned only after the whole record was zeroed' % (f['name'], rec, oname))
+                run.oblige('R-SESS-KEY', bad is None, '%s:%s:zero-before-fields' % (f['name'], oname))
+                if bad is not None:
+                    run.violation('R-SESS-KEY', f['name'], bad['loc'], 'key-record-fields-set-without-zeroing:%s' % rec,
+                                  '%s is hashed and compared by its bytes (%d of them), but %s() assigns its fields (%s) without a memset(%s, 0, sizeof) before: padding and the '
+                                  'unused tail of the address keep whatever was there, equal peers give unequal keys, the session of a known peer is not found and a '
+                                  'second one is made' % (rec, sizes.get(rec, 0), f['name'], short(bad['e'])[:50], oname), [])
+                else:
+                    for i, p in enumerate(f.get('params') or ()):
+                        if 'v%s' % p['id'] == obj:
+                            zeroing[(f['name'], i)] = rec
+    for rec in sorted(keyrecs):
+        for fn in sorted(keyrecs[rec]):
+            f = P.funcs[fn]
+            locs = set()
+            for b, ev in P.events(f):
+                t = ev['e']
+                if t.get('k') == 'decl':
+                    for d in t['d']:
+                        if d.get('n') == '_hj_key' and d.get('init'):
+                            e = strip(d['init'])
+                            if isinstance(e, dict) and e.get('k') == 'un' and e.get('prec') == rec:
+                                x = strip(e['e'])
+                                if isinstance(x, dict) and x.get('k') == 'var' and x.get('pi') is None and not x.get('g'):
+                                    locs.add((x['n'], ap(x)))
+            for v, vk in sorted(locs):
+                inits = []
+                for b, ev in P.events(f):
+                    t = ev['e']
+                    if not ev.get('top', True) or t.get('k') != 'call':
+                        continue
+                    if zeroes(t, rec) == '&' + vk:
+                        inits.append('memset')
+                    for i, a in enumerate(t.get('a') or ()):
+                        e = strip(a)
+                        if isinstance(e, dict) and e.get('k') == 'un' and e.get('op') == '&' and ap(e.get('e')) == vk and zeroing.get((t.get('fn'), i)) == rec:
+                            inits.append(t['fn'])
+                nl += 1
+                run.instance('R-SESS-KEY', '%s: local look-up key %s (%s) is built by %s' % (fn, v, rec, ', '.join(sorted(set(inits))) or 'nothing that zeroes it'))
+                run.oblige('R-SESS-KEY', bool(inits), '%s:%s:local-key-zeroed' % (fn, v))
+                if not inits:
+                    run.violation('R-SESS-KEY', fn, f['loc'], 'local-key-not-zeroed:%s' % v,
+                                  'the local %s %s is hashed by its bytes but nothing in %s() zeroes it as a whole (no memset of it, no call that hands it to a function '
+                                  'that zeroes the record first): its padding is stack garbage and the look-up misses sessions that exist' % (rec, v, fn), [])
+    run.require((nw >= 1 and nl >= 1) or run.fixture_mode or run.cfg != 'base', 'R-SESS-KEY: expected at least one writer of a byte-hashed key record and one local look-up key (coap_make_addr_hash, coap_endpoint_get_session)')
